@@ -12,6 +12,6 @@ CONSTANTS
   SOLVER = {1}
   SCALES = {"unit", "small"}
   SYSCLS = {"spd", "diagdom", "laplace", "diagvar"}
-  OPTS = {}
+  OPTS = {"nswp40", "kick1", "kick22", "iters", "rmax64"}
 INVARIANT WellTyped
 CHECK_DEADLOCK FALSE
